@@ -57,11 +57,15 @@ def value_of(kind_name, p):
     return k.fn(p)
 
 
-def rand_point(kind_name, rng):
+def rand_point(kind_name, rng, runner=None):
     k = base_kind(kind_name)
     if k.rand_point is None:
         return None
     p = k.rand_point(rng)
+    if kind_name.split(":")[-1] == "avg1d" and runner is not None and rng.random() < 0.96:
+        # mostly follow AverageLearner1D's own seed numbering (seed = number of samples held at x)
+        x = p[1]
+        p = (sum(1 for q in getattr(runner, "told_points", []) if (q[1] if not kind_name.startswith("bal:") else q[1][1]) == x), x)
     if kind_name.startswith("bal:"):
         return (rng.randrange(3), p)
     return p
@@ -166,7 +170,7 @@ class Runner:
         if op[0] == "tell_asked" and self.outstanding:
             return ("tell", self.outstanding[op[1] % len(self.outstanding)])
         if op[0] == "tell_new" and kind.supports_foreign:
-            p = rand_point(kn, random.Random(op[1]))
+            p = rand_point(kn, random.Random(op[1]), self)
             return ("tell", p) if p is not None else None
         if op[0] == "retell" and self.told and kind.supports_foreign:
             return ("retell", op[1], op[2])
@@ -193,14 +197,24 @@ def feq(a, b, rtol=1e-9):
     return a == b or (math.isnan(a) and math.isnan(b)) or abs(a - b) <= rtol * max(abs(a), abs(b), 1e-300)
 
 
+def _flat(p):
+    if isinstance(p, (tuple, list, np.ndarray)):
+        out = []
+        for q in p:
+            out += _flat(q)
+        return out
+    return [float(p)]
+
+
 def same_points(a, b, rtol=0.0):
-    """ask results equal (points exactly or to rtol, improvements likewise)"""
+    """ask results equal (points exactly or to rtol)"""
     if rtol == 0.0:
         return L.canon(a) == L.canon(b)
-    pa, ia = a
-    pb, ib = b
+    pa, pb = a[0], b[0]
     if len(pa) != len(pb):
         return False
-    fa = np.array([np.ravel(np.asarray(p, dtype=float)) for p in pa]) if pa else np.zeros((0, 1))
-    fb = np.array([np.ravel(np.asarray(p, dtype=float)) for p in pb]) if pb else np.zeros((0, 1))
-    return fa.shape == fb.shape and np.allclose(fa, fb, rtol=rtol, atol=1e-12)
+    for p, q in zip(pa, pb):
+        fp, fq = _flat(p), _flat(q)
+        if len(fp) != len(fq) or not np.allclose(fp, fq, rtol=rtol, atol=1e-12):
+            return False
+    return True
